@@ -595,6 +595,16 @@ def guard_region(body, lock_names=('Mutex::lock', 'RwLock::write')):
                 continue
             g = named[0]
             drops = [pos[0] for pos, s in body.stmts() if s.get('k') == 'drop' and s['p'] == [g]]
+            # the guard moved away (`drop(guard)`, `let other = guard`, passed to a call) also ends the region here
+            for pos, t in body.call_sites():
+                if any(a.get('m') == [g] for a in t.get('args', [])):
+                    drops.append(pos[0])
+            for pos, st in body.stmts():
+                if st.get('k') == 'assign':
+                    r = st['r']
+                    ops = [r.get('o'), r.get('a'), r.get('b')] + list(r.get('ops', []))
+                    if any(isinstance(o, dict) and o.get('m') == [g] for o in ops):
+                        drops.append(pos[0])
             out.append({'ev': ev, 'local': g, 'name': body.names().get(g), 'lock': access_path(arg(c, 0)), 'drops': drops, 'call': c})
     return out
 
